@@ -69,8 +69,8 @@ def check_cache_guard(ctx, R="C20.guard"):
     else:
         ctx.finding(R, ff, "options digest source", "Network.fromFile no longer computes the options digest from all of **kwargs: changing an option may reuse a cache built with other options")
     OPTD = lib.role_text(ff, og) if og is not None else None
-    calls = [c for c in ast.walk(ff) if isinstance(c, ast.Call) and unparse(c.func) == "cls.fromPickle" and c.keywords]
-    if calls and {k.arg: lib.role_text(ff, k.value) for k in calls[0].keywords} == {od_p: MAPD, op_p: OPTD}:
+    calls = [c for c in ast.walk(ff) if isinstance(c, ast.Call) and unparse(c.func) == "cls.fromPickle" and (lib.kw(c, od_p) is not None or lib.kw(c, op_p) is not None)]
+    if calls and all(lib.kw(calls[0], k_) is not None and lib.role_text(ff, lib.kw(calls[0], k_)) == v_ for k_, v_ in ((od_p, MAPD), (op_p, OPTD))):
         ctx.ok(R, calls[0], "both digests are handed to fromPickle")
     else:
         ctx.finding(R, ff, "digests passed to fromPickle", "Network.fromFile does not pass originalDigest=digest and optionsDigest=optionsDigest to fromPickle")
